@@ -11,7 +11,7 @@ from mc.core import Result, SubCheck
 
 PROPERTY = "C12"
 ASSUMPTIONS = [
-    "base problems: lattice stream multisets (K=3) x <=2 zones x {no utilities, a ladder with distinct levels}",
+    "base problems: lattice stream multisets (K=3) x <=2 zones x {no utilities, a ladder with distinct levels}; plus a zero-crossing lattice (contains 0.0 and a negative temperature) with a gliding inside-range cold utility whose target is exactly 0.0 and with one header entered as separate hot and cold utilities of the same level",
     "for every base problem ALL generators are applied: every permutation of the stream list, the split of every stream at every interior lattice point, a 1/4+3/4 parallel split of every stream, "
     "every renaming/reordering of the zones from a 3-name alphabet, translations {+37.5,-100,+1000}, duty scalings {x0.25,x3,x100}, mirroring of the temperature axis with hot/cold swap",
     "graph data are compared for permutation, split, renaming, translation and scaling (points mapped by the same transformation, 0.011 display tolerance)",
@@ -28,7 +28,35 @@ def ladder(inst):
             u("CW", "Cold", T[0] - 2 * step, T[0] - 2 * step), u("TW", "Cold", T[1] - d, T[1] - d, dt=d)]
 
 
+def ladder_b(inst):
+    """a glide cold utility heated from T0 to T1 inside the range (on the zero-crossing lattice its target is exactly 0.0)"""
+    T = A.lattice(inst, 3)
+    step, d = inst[1], inst[3] / 2
+    u = A.utility_dict
+    return [u("HP", "Hot", T[2] + 2 * step, T[2] + 2 * step), u("CW", "Cold", T[0] - 2 * step, T[0] - 2 * step), u("Gly", "Cold", T[0], T[1], dt=d)]
+
+
+def ladder_c(inst):
+    """one header entered as SEPARATE isothermal hot (use) and cold (generation) utilities of the same level T1"""
+    T = A.lattice(inst, 3)
+    step, d = inst[1], inst[3] / 2
+    u = A.utility_dict
+    return [u("HP", "Hot", T[2] + 2 * step, T[2] + 2 * step), u("LPuse", "Hot", T[1], T[1], dt=d), u("LPgen", "Cold", T[1], T[1], dt=d),
+            u("CW", "Cold", T[0] - 2 * step, T[0] - 2 * step)]
+
+
 def bases(tier, inst):
+    yield from bases_main(tier, inst)
+    # zero-crossing lattice (contains 0.0 and a negative temperature) with the two extra ladders
+    z = A.zero_inst(inst)
+    for ms in P.stream_multisets(z, 3, 2, cps=(1, 2), dts=(1,), iso=(tier == "thorough")):
+        n = len(ms)
+        yield {"streams": ms, "zones": ["A"] * n, "uset": 2, "inst": list(z)}
+        if n == 2:
+            yield {"streams": ms, "zones": ["A", "B"], "uset": 3, "inst": list(z)}
+
+
+def bases_main(tier, inst):
     if tier == "quick":
         gens = [P.stream_multisets(inst, 3, 2, cps=(1, 2), dts=(1,), iso=True),
                 P.stream_multisets(inst, 3, 3, cps=(1,), dts=(1,), iso=False, min_n=3)]
@@ -52,7 +80,7 @@ def bases(tier, inst):
 
 def build(case):
     inst = tuple(case["inst"])
-    us = ladder(inst) if case["uset"] == 1 else []
+    us = {0: [], 1: ladder(inst), 2: ladder_b(inst), 3: ladder_c(inst)}[case["uset"]]
     return A.problem([tuple(s) for s in case["streams"]], case["zones"], utilities=us)
 
 
@@ -61,9 +89,10 @@ def twins(case, prob):
     inst = tuple(case["inst"])
     n = len(prob["streams"])
     T = A.lattice(inst, 3)
+    light = case["uset"] >= 2      # the zero-crossing family: translations, scalings, mirror, utility order and zone renaming only
     # permutations
     for perm in itertools.permutations(range(n)):
-        if list(perm) == list(range(n)):
+        if list(perm) == list(range(n)) or light:
             continue
         tw = copy.deepcopy(prob)
         tw["streams"] = [copy.deepcopy(prob["streams"][i]) for i in perm]
@@ -74,6 +103,8 @@ def twins(case, prob):
         yield "utility-order", tw, {}
     # series split at interior lattice points
     for i, s in enumerate(prob["streams"]):
+        if light:
+            break
         lo, hi = sorted((s["t_supply"], s["t_target"]))
         for tm in T:
             if lo < tm < hi:
@@ -86,6 +117,8 @@ def twins(case, prob):
                 yield "series-split", tw, {}
     # parallel split
     for i, s in enumerate(prob["streams"]):
+        if light:
+            break
         tw = copy.deepcopy(prob)
         a, b = copy.deepcopy(s), copy.deepcopy(s)
         a["heat_flow"], a["name"] = s["heat_flow"] * 0.25, s["name"] + "p"
